@@ -46,6 +46,17 @@ def requests(tier, rng):
         a = [rng.randrange(-9 * Q + 1, 9 * Q) for _ in range(256)]; b = [rng.randrange(-9 * Q + 1, 9 * Q) for _ in range(256)]
         L.append("poly::pointwise_montgomery %s %s" % (fmt(a), fmt(b)))
     L.append("poly::pointwise_montgomery %s %s" % (fmt([9 * Q - 1] * 256), fmt([-(9 * Q - 1)] * 256)))
+    # degenerate operands (the output buffer is pre-filled with junk by the harness): the zero polynomial on either side,
+    # a single non-zero coefficient, constants, all-equal operands -- where a "shortcut" for special inputs would live
+    zero = [0] * 256
+    rnd = [rng.randrange(-Q + 1, Q) for _ in range(256)]
+    one = [1] + [0] * 255
+    last = [0] * 255 + [rng.randrange(1, Q)]
+    for a, b in ((zero, rnd), (rnd, zero), (zero, zero), (one, rnd), (rnd, one), (last, rnd), (rnd, last), (rnd, rnd), ([1] * 256, rnd), ([-1] * 256, rnd)):
+        L.append("poly::pointwise_montgomery %s %s" % (fmt(a), fmt(b)))
+    for p0 in (zero, one, last, [1] * 256, [Q - 1] * 256):
+        L.append("poly::ntt " + fmt(p0))
+        L.append("poly::invntt_tomont " + fmt(p0))
     # power-of-two grid: every pair (+-2^i + d, +-2^j + e), d, e in {-1, 0, 1}, inside the 9q operand bound --
     # where word-size shortcuts and sign handling change behaviour
     vals = sorted({sg * (2**i) + d for i in range(0, 27) for d in (-1, 0, 1) for sg in (1, -1) if abs(sg * (2**i) + d) < 9 * Q} | {9 * Q - 1, -(9 * Q - 1), Q, -Q, Q - 1, 1 - Q})
